@@ -72,7 +72,21 @@ def raw_lp(model, update=True):
         v = glp.glp_get_obj_coef(P, j)
         if v != 0:
             obj[colname[j]] = v
+    cfg = {}
+    try:
+        c = solver.configuration
+        for nm in ("presolve", "timeout", "lp_method", "verbosity"):
+            if hasattr(c, nm):
+                cfg[nm] = getattr(c, nm)
+        t = c.tolerances
+        for nm in ("feasibility", "optimality", "integrality"):
+            if hasattr(t, nm):
+                cfg["tol_" + nm] = getattr(t, nm)
+    except Exception:
+        pass
     return {
+        "config": cfg,
+        "interface": type(solver).__module__,
         "cols": cols,
         "rows": rows,
         "obj": obj,
@@ -159,6 +173,11 @@ def lp_diff(a, b, rel=REL, what=("cols", "rows", "obj", "dir")):
                 out.append(f"objective: coef on {cn} {u} -> {v}")
     if "dir" in what and a["dir"] != b["dir"]:
         out.append(f"objective direction {a['dir']} -> {b['dir']}")
+    if "config" in what:
+        if a.get("config") != b.get("config"):
+            out.append(f"solver configuration {a.get('config')} -> {b.get('config')}")
+        if a.get("interface") != b.get("interface"):
+            out.append(f"solver interface {a.get('interface')} -> {b.get('interface')}")
     return out
 
 
@@ -495,9 +514,10 @@ def snapshot(model, with_lp=True):
     return s
 
 
-def snapshot_diff(a, b, ignore=("order",), lp_rel=REL, content_rel=0.0):
+def snapshot_diff(a, b, ignore=("order",), lp_rel=REL, content_rel=0.0, config=False):
     out = content_diff(a["content"], b["content"], ignore=ignore, rel=content_rel)
     if "lp" in a and "lp" in b:
-        out += ["LP " + d for d in lp_diff(a["lp"], b["lp"], rel=lp_rel)]
+        what = ("cols", "rows", "obj", "dir") + (("config",) if config else ())
+        out += ["LP " + d for d in lp_diff(a["lp"], b["lp"], rel=lp_rel, what=what)]
     out += ["xref(after) " + e for e in b["xref"] if e not in a["xref"]]
     return out
